@@ -60,6 +60,7 @@ func runC16(c *Ctx) {
 	runC16PushOrder(c)
 	runC16HeapContract(c)
 	runC16ClassPriority(c)
+	runC16StatusSync(c)
 	borrow(c, "O8", "C05", "O13", "", "a per-job table of the topology plugin that survives into the next job confines that job to the previous job's nodes: a higher-priority workload stays pending next to free nodes while an identical lower-priority one, attempted after a different predecessor, is placed")
 	borrow(c, "O6", "C08", "O5", "AllocatedNotPreemptible", "the non-preemptible quota gate must be monotone within a cycle: a deallocation that subtracts what the allocation never added lowers the queue's non-preemptible usage, so an earlier (higher-priority) workload is refused and an identical later one admitted")
 	p, fx := c.P, c.Fx
@@ -851,4 +852,128 @@ func runC16ClassPriority(c *Ctx) {
 		walk(unspill(ret, 0), fx.pathFactsTo(b, 3), ret.Pos(), map[ssa.Value]bool{})
 	}
 	c.Floor("O11", "RET default-priority answers", n, 1)
+}
+
+// runC16StatusSync (O12, O13): the snapshot merges the scheduler's own in-flight status updates into the listed pod
+// groups. What is merged decides the ORDER INPUT of the next cycle (priority class, creation time are in the spec).
+//
+//	O12 — syncPodGroup writes only the two timestamp annotations and Status.SchedulingConditions into the listed
+//	      object: copying the whole in-flight object reverts a spec edit made meanwhile (a raised priority class), and
+//	      an older low-priority workload is placed while the raised one stays pending;
+//	O13 — the key under which an in-flight update is remembered contains the object's UID: keyed by name only, a pod
+//	      group deleted and re-created under the same name inherits its predecessor's "unschedulable" condition.
+func runC16StatusSync(c *Ctx) {
+	const pkg = "pkg/scheduler/cache/status_updater"
+	if f := c.Anchor("O12", pkg, "defaultStatusUpdater", "syncPodGroup"); f != nil {
+		n := 0
+		snap := f.Params[2]
+		for _, b := range f.Blocks {
+			for _, in := range b.Instrs {
+				switch x := in.(type) {
+				case *ssa.Store:
+					t := termOf(x.Addr)
+					if rootParam(t) != 2 {
+						continue
+					}
+					n++
+					ok := strings.HasSuffix(t.String(), ".Status.SchedulingConditions") || strings.HasSuffix(t.String(), ".Annotations")
+					c.Check(ok, "O12", "CALLERS", funcKey(f)+": writes "+trunc(t.String(), 70)+" of the listed pod group", instrPos(in), "timestamp annotations / Status.SchedulingConditions only",
+						"syncPodGroup overwrites "+t.String()+" of the listed pod group with the in-flight copy: an edit the user made since (spec.priorityClassName, spec.queue, minMember) is reverted in the snapshot")
+				case *ssa.MapUpdate:
+					if rootParam(termOf(x.Map)) == 2 {
+						n++
+						c.Check(termOf(x.Map).lastField() == "Annotations", "O12", "CALLERS", funcKey(f)+": map write into the listed pod group", instrPos(in), "Annotations", "syncPodGroup writes into a map of the listed pod group other than its annotations")
+					}
+				case ssa.CallInstruction:
+					for i, a := range x.Common().Args {
+						if a != ssa.Value(snap) {
+							continue
+						}
+						cal := calleeOf(x)
+						name := "?"
+						if cal != nil {
+							name = cal.Name()
+						}
+						if cal != nil && (name == "DeepCopyInto" || name == "DeepCopyObject") && i > 0 {
+							n++
+							c.Viol("O12", "CALLERS", funcKey(f)+": the listed pod group is not overwritten wholesale", instrPos(in),
+								"the in-flight pod group is copied over the listed one ("+name+"): the spec the user edited meanwhile (priority class) is replaced by the stale one, and the next cycle orders the workload by its old priority")
+						}
+					}
+				}
+			}
+		}
+		c.Floor("O12", "CALLERS writes into the listed pod group", n, 3)
+	}
+	n := 0
+	for _, name := range []string{"keyForPodGroupPayload", "keyForPodStatusPayload", "keyForPodLabelsPayload"} {
+		f := c.P.Func(pkg, "defaultStatusUpdater", name)
+		if f == nil {
+			continue
+		}
+		n++
+		c.Analysed(funcKey(f))
+		for _, b := range f.Blocks {
+			ret, ok := b.Instrs[len(b.Instrs)-1].(*ssa.Return)
+			if !ok {
+				continue
+			}
+			t := termOf(ret.Results[0])
+			deps := backwardParams(ret.Results[0], 10)
+			uses := func(i int) bool { return deps[i] }
+			c.Check(uses(1) && uses(2) && uses(3), "O13", "PROV", funcKey(f)+": the key of a remembered update names the object by name, namespace and UID", instrPos(ret), "all three",
+				"the key under which an in-flight update is remembered leaves out part of the object's identity ("+trunc(t.String(), 120)+"): an object re-created under the same name inherits its predecessor's pending update (an 'unschedulable' condition), and with a scheduling back-off it is dropped from every snapshot")
+		}
+	}
+	c.Floor("O13", "PROV payload keys", n, 3)
+}
+
+// backwardParams: the parameters (by index, receiver = 0) a value is computed from: a backward slice through
+// operands, through the fields stored into local composite values, and through loads of local cells.
+func backwardParams(v ssa.Value, depth int) map[int]bool {
+	out := map[int]bool{}
+	seen := map[ssa.Value]bool{}
+	var walk func(v ssa.Value, d int)
+	walk = func(v ssa.Value, d int) {
+		if v == nil || d == 0 || seen[v] {
+			return
+		}
+		seen[v] = true
+		switch x := v.(type) {
+		case *ssa.Parameter:
+			out[paramIndexOf(x)] = true
+			return
+		case *ssa.Alloc:
+			for _, r := range *x.Referrers() {
+				switch y := r.(type) {
+				case *ssa.Store:
+					if y.Addr == ssa.Value(x) {
+						walk(y.Val, d-1)
+					}
+				case *ssa.FieldAddr:
+					for _, r2 := range *y.Referrers() {
+						if st, ok := r2.(*ssa.Store); ok && st.Addr == ssa.Value(y) {
+							walk(st.Val, d-1)
+						}
+					}
+				case *ssa.IndexAddr:
+					for _, r2 := range *y.Referrers() {
+						if st, ok := r2.(*ssa.Store); ok && st.Addr == ssa.Value(y) {
+							walk(st.Val, d-1)
+						}
+					}
+				}
+			}
+			return
+		}
+		if in, ok := v.(ssa.Instruction); ok {
+			for _, op := range in.Operands(nil) {
+				if op != nil && *op != nil {
+					walk(*op, d-1)
+				}
+			}
+		}
+	}
+	walk(v, depth)
+	return out
 }
